@@ -5,6 +5,7 @@ package zzverif
 
 import (
 	"fmt"
+	"math"
 	"reflect"
 	"strconv"
 
@@ -251,6 +252,15 @@ func H_c14w(p []int) {
 	vAssert(bytesEq([]byte(fmt.Sprintf(d, fwdFmt{x})), direct), "C14/forwarder-as-x")
 	out := []byte(redact.Sprintf(d, fwdFmt{x}))
 	vAssert(bytesEq(strip(out), esc(direct)), "C14/forwarder-under-redact")
+	if p[2] == 2 {
+		// a forwarder that follows special float values in one container: what
+		// printing them does to the printer's flags must not reach the forwarder
+		for _, pre := range []interface{}{math.NaN(), math.Inf(1), -0.5} {
+			direct2 := []byte(fmt.Sprintf(d, []interface{}{pre, 7}))
+			out2 := []byte(redact.Sprintf(d, []interface{}{pre, fwdFmt{7}}))
+			vAssert(bytesEq(strip(out2), esc(direct2)), "C14/forwarder-after-sibling")
+		}
+	}
 	// MakeFormat on redact's own printer, before and after the SafeFormat
 	// method has printed something through it
 	ra, rb := &mfRec{}, &mfRec{}
